@@ -1,3 +1,4 @@
 import GristModel.Treeview
 import GristModel.Doc
 import GristModel.Engine
+import GristModel.DocSpec
